@@ -3,12 +3,25 @@
 (* C20 - concurrent use of one client: resource accounting and termination.*)
 (*                                                                         *)
 (* N goroutines run global transactions through one initialised client and *)
-(* shared database handles while the coordinator delivers phase two.  Every *)
-(* transaction borrows pooled connections (phase one, and again for each    *)
-(* phase-two delivery), spawns helper goroutines and registers pending      *)
-(* request futures.  The specification says what must be true when the      *)
+(* shared database handles while the coordinator delivers phase two and     *)
+(* sessions to the coordinator come and go.  A transaction has up to        *)
+(* MaxBranch branches of four kinds:                                        *)
+(*   at    AT branch: borrows a pooled connection in phase one (returned    *)
+(*         inside) and leaves an undo row; phase two borrows a connection   *)
+(*         again and removes the undo row                                   *)
+(*   xa    XA branch: the resource manager holds the branch's connection    *)
+(*         from XA START on and the database holds a prepared branch from   *)
+(*         XA PREPARE on; phase two ends both                               *)
+(*   tcc   TCC action: try in phase one; exactly one of confirm / cancel    *)
+(*         is owed to it in phase two                                       *)
+(*   tccf  TCC action behind the fence: additionally every method runs      *)
+(*         inside a fence transaction on a pooled connection                *)
+(* Every transaction registers pending request futures, phase two spawns    *)
+(* helper goroutines.  The specification says what must be true when the    *)
 (* system is quiescent again: everything borrowed has been returned, and    *)
-(* every transaction has terminated.  Data races are outside what a TLA+    *)
+(* every transaction has terminated - whatever its outcome (committed,      *)
+(* rolled back by the business, failed because of a lock conflict or a      *)
+(* request that died with its session).  Data races are outside what a TLA+ *)
 (* model can observe: the Go race detector runs as a monitor on the same    *)
 (* workload and each of its reports is an event this specification never    *)
 (* allows (DESIGN.md section 9).                                            *)
@@ -16,58 +29,110 @@
 EXTENDS Integers, Sequences, FiniteSets, TLC
 
 CONSTANTS NTx,        \* transactions in the batch
-          MaxBranch   \* branches per transaction
+          MaxBranch,  \* branches per transaction
+          MaxSess     \* sessions to the coordinator open at the same time
 
-VARIABLES st,       \* tx -> "new" | "p1" | "decided" | "p2" | "done"
-          branches, \* tx -> number of registered branches
-          p2left,   \* tx -> phase-two deliveries still to be made
+Kinds == {"at", "xa", "tcc", "tccf"}
+
+VARIABLES st,       \* tx -> "new" | "p1" | "p2" | "done"
+          br,       \* tx -> sequence of the kinds of its registered branches
+          p2left,   \* tx -> indices of the branches phase two is still to be delivered to
           inUse,    \* pooled connections currently borrowed
           futures,  \* pending request futures
-          helpers   \* helper goroutines alive
+          run,      \* kind -> phase-two helper goroutines alive
+          held,     \* XA connections held by the resource manager
+          prepared, \* XA branches in PREPARED state in the database
+          tccOpen,  \* TCC actions tried and still owed their second phase
+          fenceTx,  \* open fence transactions
+          undo,     \* undo rows
+          sess      \* open sessions
 
-vars == <<st, branches, p2left, inUse, futures, helpers>>
+vars == <<st, br, p2left, inUse, futures, run, held, prepared, tccOpen, fenceTx, undo, sess>>
 Tx == 1..NTx
+Count(k, kk) == IF k \in kk THEN 1 ELSE 0
 
-Init == /\ st = [t \in Tx |-> "new"] /\ branches = [t \in Tx |-> 0] /\ p2left = [t \in Tx |-> 0]
-        /\ inUse = 0 /\ futures = 0 /\ helpers = 0
+Init == /\ st = [t \in Tx |-> "new"] /\ br = [t \in Tx |-> <<>>] /\ p2left = [t \in Tx |-> {}]
+        /\ inUse = 0 /\ futures = 0 /\ run = [k \in Kinds |-> 0]
+        /\ held = 0 /\ prepared = 0 /\ tccOpen = 0 /\ fenceTx = 0 /\ undo = 0 /\ sess = 1
+
+\* sessions come and go underneath the traffic; the client is never left without one (what a client
+\* without any session does is C19's business).  A request that dies with its session is a failed step.
+OpenSess == sess < MaxSess /\ sess' = sess + 1
+            /\ UNCHANGED <<st, br, p2left, inUse, futures, run, held, prepared, tccOpen, fenceTx, undo>>
+LoseSess == sess > 1 /\ sess' = sess - 1
+            /\ UNCHANGED <<st, br, p2left, inUse, futures, run, held, prepared, tccOpen, fenceTx, undo>>
 
 Start(t) == /\ st[t] = "new" /\ st' = [st EXCEPT ![t] = "p1"]
             /\ futures' = futures + 1          \* GlobalBegin in flight
-            /\ UNCHANGED <<branches, p2left, inUse, helpers>>
+            /\ UNCHANGED <<br, p2left, inUse, run, held, prepared, tccOpen, fenceTx, undo, sess>>
 
-\* one branch: borrow a connection, register (a future), commit or roll back locally, return the connection
-Branch(t, ok) ==
-  /\ st[t] = "p1" /\ branches[t] < MaxBranch /\ futures > 0
-  /\ branches' = [branches EXCEPT ![t] = IF ok THEN @ + 1 ELSE @]
-  /\ UNCHANGED <<st, p2left, inUse, futures, helpers>>   \* borrow+return and request+reply are balanced inside
+\* one branch of kind k.  Borrow+return of the phase-one connection, request+reply of the registration
+\* and (tccf) begin+commit of the fence transaction are balanced inside the step.  A failed branch
+\* (lock conflict, lock wait, refused or lost registration, failed statement) leaves nothing behind:
+\* the local transaction is rolled back, the XA branch is ended and rolled back and its hold released.
+Branch(t, k, ok) ==
+  /\ st[t] = "p1" /\ Len(br[t]) < MaxBranch /\ futures > 0
+  /\ IF ok
+     THEN /\ br' = [br EXCEPT ![t] = Append(@, k)]
+          /\ undo' = undo + Count(k, {"at"})
+          /\ held' = held + Count(k, {"xa"})
+          /\ prepared' = prepared + Count(k, {"xa"})
+          /\ tccOpen' = tccOpen + Count(k, {"tcc", "tccf"})
+     ELSE UNCHANGED <<br, undo, held, prepared, tccOpen>>
+  /\ UNCHANGED <<st, p2left, inUse, futures, run, fenceTx, sess>>
 
-Decide(t) == /\ st[t] = "p1" /\ st' = [st EXCEPT ![t] = IF branches[t] = 0 THEN "done" ELSE "p2"]
-             /\ p2left' = [p2left EXCEPT ![t] = branches[t]]
-             /\ futures' = futures - 1         \* the begin/commit/rollback exchange is over
-             /\ UNCHANGED <<branches, inUse, helpers>>
+\* the global decision (commit, rollback, or the coordinator's time-out of a transaction whose owner
+\* could not tell its decision): the begin/commit/rollback exchange is over, phase two is owed to
+\* every registered branch
+Decide(t) == /\ st[t] = "p1"
+             /\ st' = [st EXCEPT ![t] = IF br[t] = <<>> THEN "done" ELSE "p2"]
+             /\ p2left' = [p2left EXCEPT ![t] = 1..Len(br[t])]
+             /\ futures' = futures - 1
+             /\ UNCHANGED <<br, inUse, run, held, prepared, tccOpen, fenceTx, undo, sess>>
 
-\* one phase-two delivery: a helper goroutine borrows a connection, works, returns it and answers
-P2Begin(t) == /\ st[t] = "p2" /\ p2left[t] > 0
-              /\ inUse' = inUse + 1 /\ helpers' = helpers + 1
-              /\ p2left' = [p2left EXCEPT ![t] = @ - 1]
-              /\ UNCHANGED <<st, branches, futures>>
-P2End == /\ helpers > 0 /\ inUse > 0
-         /\ inUse' = inUse - 1 /\ helpers' = helpers - 1
-         /\ UNCHANGED <<st, branches, p2left, futures>>
-Finish(t) == /\ st[t] = "p2" /\ p2left[t] = 0 /\ st' = [st EXCEPT ![t] = "done"]
-             /\ UNCHANGED <<branches, p2left, inUse, futures, helpers>>
+\* one phase-two delivery: a helper goroutine works on the branch ...
+P2Begin(t, i) ==
+  /\ st[t] = "p2" /\ i \in p2left[t]
+  /\ LET k == br[t][i] IN
+     /\ run' = [run EXCEPT ![k] = @ + 1]
+     /\ inUse' = inUse + Count(k, {"at", "tccf"})     \* xa works on the held connection, tcc on none
+     /\ fenceTx' = fenceTx + Count(k, {"tccf"})
+  /\ p2left' = [p2left EXCEPT ![t] = @ \ {i}]
+  /\ UNCHANGED <<st, br, futures, held, prepared, tccOpen, undo, sess>>
+\* ... and is done with it: everything the branch held is given back
+P2End(k) ==
+  /\ run[k] > 0 /\ run' = [run EXCEPT ![k] = @ - 1]
+  /\ inUse' = inUse - Count(k, {"at", "tccf"})
+  /\ fenceTx' = fenceTx - Count(k, {"tccf"})
+  /\ undo' = undo - Count(k, {"at"})
+  /\ held' = held - Count(k, {"xa"})
+  /\ prepared' = prepared - Count(k, {"xa"})
+  /\ tccOpen' = tccOpen - Count(k, {"tcc", "tccf"})
+  /\ UNCHANGED <<st, br, p2left, futures, sess>>
+Finish(t) == /\ st[t] = "p2" /\ p2left[t] = {} /\ st' = [st EXCEPT ![t] = "done"]
+             /\ UNCHANGED <<br, p2left, inUse, futures, run, held, prepared, tccOpen, fenceTx, undo, sess>>
 
-Next == \/ \E t \in Tx : Start(t) \/ Decide(t) \/ P2Begin(t) \/ Finish(t)
-        \/ \E t \in Tx, ok \in BOOLEAN : Branch(t, ok)
-        \/ P2End
+Work == \/ \E t \in Tx : Start(t) \/ Decide(t) \/ Finish(t)
+        \/ \E t \in Tx, i \in 1..MaxBranch : P2Begin(t, i)
+        \/ \E t \in Tx, k \in Kinds, ok \in BOOLEAN : Branch(t, k, ok)
+        \/ \E k \in Kinds : P2End(k)
+Next == Work \/ OpenSess \/ LoseSess
 
-Spec == Init /\ [][Next]_vars /\ WF_vars(Next)
+\* fairness on the work only: sessions may come and go for ever without keeping a transaction from ending
+Spec == Init /\ [][Next]_vars /\ WF_vars(Work)
 
 AllDone == \A t \in Tx : st[t] = "done"
-Quiescent == AllDone /\ helpers = 0
-\* Balanced: at quiescence nothing is borrowed and nothing is pending
-Balanced == Quiescent => (inUse = 0 /\ futures = 0)
-TypeOK == inUse \in 0..(NTx * MaxBranch) /\ futures \in 0..NTx /\ helpers \in 0..(NTx * MaxBranch)
+NoHelpers == \A k \in Kinds : run[k] = 0
+Quiescent == AllDone /\ NoHelpers
+\* Balanced: at quiescence nothing is borrowed, nothing is pending and nothing is owed
+Balanced == Quiescent => /\ inUse = 0 /\ futures = 0
+                         /\ held = 0 /\ prepared = 0
+                         /\ tccOpen = 0 /\ fenceTx = 0
+                         /\ undo = 0
+Cap == NTx * MaxBranch
+TypeOK == /\ inUse \in 0..Cap /\ futures \in 0..NTx /\ \A k \in Kinds : run[k] \in 0..Cap
+          /\ held \in 0..Cap /\ prepared \in 0..Cap /\ tccOpen \in 0..Cap /\ fenceTx \in 0..Cap /\ undo \in 0..Cap
+          /\ sess \in 1..MaxSess
 \* every transaction terminates and the system comes to rest
-AllTerminate == <>[](AllDone /\ helpers = 0 /\ inUse = 0)
+AllTerminate == <>[](AllDone /\ NoHelpers /\ inUse = 0 /\ held = 0)
 =============================================================================
